@@ -86,6 +86,7 @@ class Recorder:
         self.options = None
         self.internal_points = []   # internal argument of every Problem.__call__
         self.user_calls = []        # (kind, array) of every user-function call
+        self.returns = []           # (kind, j, pid, value) returned by every objective / constraint call
         self.extra = {}
 
     def pid(self, x):
@@ -340,7 +341,9 @@ def record(problem, timeout=120, inject=None):
         def ufun(x, *args):
             rec.ev("obj", rec.pid(x))
             rec.user_calls.append(("obj", np.array(x, float)))
-            return fun(x, *args)
+            v = fun(x, *args)
+            rec.returns.append(("obj", None, rec.pid(x), v))
+            return v
     cons = []
     j = 0
     for c in problem.get("constraints") or []:
@@ -348,14 +351,18 @@ def record(problem, timeout=120, inject=None):
             def spy(x, _f=c.fun, _j=j):
                 rec.ev("con", _j, rec.pid(x))
                 rec.user_calls.append(("con", np.array(x, float)))
-                return _f(x)
+                v = _f(x)
+                rec.returns.append(("con", _j, rec.pid(x), np.array(v, float)))
+                return v
             cons.append(NonlinearConstraint(spy, c.lb, c.ub))
             j += 1
         elif isinstance(c, dict):
             def spy(x, *a, _f=c["fun"], _j=j):
                 rec.ev("con", _j, rec.pid(x))
                 rec.user_calls.append(("con", np.array(x, float)))
-                return _f(x, *a)
+                v = _f(x, *a)
+                rec.returns.append(("con", _j, rec.pid(x), np.array(v, float)))
+                return v
             d = dict(c)
             d["fun"] = spy
             cons.append(d)
@@ -381,7 +388,67 @@ def record(problem, timeout=120, inject=None):
             except Exception as exc:  # noqa
                 out["exception"] = type(exc).__name__ + ": " + str(exc)[:200]
     out["options"] = rec.extra.get("final_options") or options
+    out["cons_in"] = problem.get("constraints") or []
     return out
+
+
+def truth_at_result(out, problem):
+    """Independent statement of C02 for one finished run: is res.x an evaluated point, is res.fun the raw value
+    returned there, and what is the true maximum violation of the constraints AS THE USER STATED THEM at res.x
+    (bounds, linear constraints evaluated in user space, nonlinear ones from the values the user functions
+    returned at that point).  Returns dict(evaluated, fun_ok, true_maxcv, lin_scale)."""
+    from scipy.optimize import Bounds, LinearConstraint, NonlinearConstraint
+    rec, res = out["rec"], out["res"]
+    x = np.array(res.x, float)
+    key = tuple(f2b(v) for v in x)
+    pid = rec.pids.get(key)
+    calls = [r for r in rec.returns if r[2] == pid] if pid is not None else []
+    upids = {int(e.split()[2]) for e in rec.events if e.startswith("evalBegin ")}
+    evaluated = pid is not None and pid in upids
+    if problem.get("fun") is not None:
+        evaluated = evaluated and any(r[0] == "obj" for r in calls)
+    fvals = [r[3] for r in calls if r[0] == "obj"]
+    fun_ok = None
+    if problem.get("fun") is not None:
+        fun_ok = any(f2b(float(np.squeeze(v))) == f2b(res.fun) or (float(np.squeeze(v)) != float(np.squeeze(v)) and res.fun != res.fun) for v in fvals)
+    viol, scale = 0.0, 1.0
+    spec = out["spec"]
+    lb, ub = spec["xl"], spec["xu"]
+    with np.errstate(invalid="ignore"):
+        viol = max(viol, float(np.max(np.where(np.isfinite(lb), lb - x, 0.0), initial=0.0)), float(np.max(np.where(np.isfinite(ub), x - ub, 0.0), initial=0.0)))
+    j = 0
+    nan_seen = False
+    slack = 0.0
+    for c in out["cons_in"]:
+        if isinstance(c, LinearConstraint):
+            A = np.where(np.isnan(np.atleast_2d(np.array(c.A, float))), 0.0, np.atleast_2d(np.array(c.A, float)))
+            w = A @ x
+            l = np.broadcast_to(np.array(c.lb, float), w.shape)
+            u = np.broadcast_to(np.array(c.ub, float), w.shape)
+            scale = max(scale, float(np.max(np.abs(A) @ np.abs(x), initial=0.0)), float(np.max(np.abs(l[np.isfinite(l)]), initial=0.0)), float(np.max(np.abs(u[np.isfinite(u)]), initial=0.0)))
+        else:
+            vals = [r[3] for r in calls if r[0] == "con" and r[1] == j]
+            if isinstance(c, dict):
+                l, u = 0.0, (0.0 if c["type"] == "eq" else np.inf)
+            else:
+                l, u = c.lb, c.ub
+            j += 1
+            if not vals:
+                evaluated = False
+                continue
+            w = np.atleast_1d(np.array(vals[-1], float))
+            l = np.broadcast_to(np.array(l, float), w.shape)
+            u = np.broadcast_to(np.array(u, float), w.shape)
+        if np.any(np.isnan(w)):
+            nan_seen = True
+        both = np.isfinite(l) & np.isfinite(u)
+        slack = max(slack, float(np.max(0.5 * np.abs(u - l)[both & (np.abs(u - l) <= 1e-9 * np.maximum(1.0, np.maximum(np.abs(l), np.abs(u))))], initial=0.0)))
+        with np.errstate(invalid="ignore"):
+            viol = max(viol, float(np.max(np.where(np.isfinite(l), l - w, 0.0), initial=0.0)), float(np.max(np.where(np.isfinite(u), w - u, 0.0), initial=0.0)))
+    if nan_seen:
+        viol = float("nan")
+    return {"evaluated": bool(evaluated), "fun_ok": fun_ok, "true_maxcv": viol, "lin_scale": scale, "eq_slack": slack,
+            "maxcv": float(res.maxcv), "fun": float(res.fun)}
 
 
 def cfg_line(out, problem):
